@@ -107,7 +107,7 @@ Definition marked (k : keypair) (ctr : N) : keypair :=
   set_filter k {| seen := ctr :: seen (k_filter k); mx := N.max (mx (k_filter k)) ctr |}.
 
 Definition upd (st : state) (i : N) (sl : slot) (k : keypair) (ctr : N) : state :=
-  {| s_tbl := s_tbl st; s_peers := upd_slot (s_peers st) i sl (marked k ctr) |}.
+  {| s_tbl := s_tbl st; s_peers := upd_slot (s_peers st) i sl (marked k ctr); s_gone := s_gone st |}.
 
 Lemma gate_true plain : gate MessageTransportType (MessageTransportSize + blen plain) = true.
 Proof.
@@ -487,8 +487,9 @@ Definition empty_peer : peer := {| k_prev := None; k_cur := None; k_next := None
 Theorem inv_preserved : forall key ctr st ev,
   Inv key ctr st -> fresh_keys key [ev] -> Inv key ctr (fst (step st ev)).
 Proof.
-  intros key ctr st ev HI Hfr. destruct ev as [p idx k0|p idx k0| |p ns|l]; cbn [step fst].
+  intros key ctr st ev HI Hfr. destruct ev as [p idx k0|p idx k0| |p|p ns|l]; cbn [step].
   - assert (Hne : k0 <> key) by (apply (Hfr p idx k0); left; left; reflexivity).
+    destruct (is_gone st p); cbn [fst]; [exact HI|].
     unfold Inv. cbn [s_peers].
     destruct (nth_error (s_peers st) (N.to_nat p)) as [x|] eqn:Hn; [|exact HI].
     pose proof (nth_error_In _ _ Hn) as Hx.
@@ -499,6 +500,7 @@ Proof.
     + inversion Hslot; subst k1. cbn [k_key] in Hk1. contradiction.
     + discriminate.
   - assert (Hne : k0 <> key) by (apply (Hfr p idx k0); right; left; reflexivity).
+    destruct (is_gone st p); cbn [fst]; [exact HI|].
     unfold Inv. cbn [s_peers].
     destruct (nth_error (s_peers st) (N.to_nat p)) as [x|] eqn:Hn; [|exact HI].
     pose proof (nth_error_In _ _ Hn) as Hx.
@@ -508,10 +510,15 @@ Proof.
     + discriminate.
     + exact (HI x Hx SCur k1 Hslot Hk1).
     + inversion Hslot; subst k1. cbn [k_key] in Hk1. contradiction.
-  - unfold Inv. cbn [s_peers]. intros q Hin s2 k1 Hslot Hk1.
+  - unfold Inv. cbn [fst s_peers]. intros q Hin s2 k1 Hslot Hk1.
     apply in_map_iff in Hin. destruct Hin as (x & Eq & _). subst q.
     destruct s2; discriminate.
-  - unfold Inv. cbn [s_peers].
+  - unfold Inv. cbn [fst s_peers].
+    destruct (nth_error (s_peers st) (N.to_nat p)) as [x|] eqn:Hn; [|exact HI].
+    intros q Hin s2 k1 Hslot Hk1. apply in_set_nth in Hin. destruct Hin as [Hq|Hq].
+    2:{ exact (HI q Hq s2 k1 Hslot Hk1). }
+    subst q. destruct s2; discriminate.
+  - unfold Inv. cbn [fst s_peers].
     destruct (nth_error (s_peers st) (N.to_nat p)) as [x|] eqn:Hn; [|exact HI].
     pose proof (nth_error_In _ _ Hn) as Hx.
     intros q Hin s2 k1 Hslot Hk1. apply in_set_nth in Hin. destruct Hin as [Hq|Hq].
@@ -621,10 +628,13 @@ Lemma all_empty_step st ev :
   AllEmpty st -> (forall p i k, ev <> Handshake p i k /\ ev <> HandshakeUnconf p i k) ->
   AllEmpty (fst (step st ev)).
 Proof.
-  intros HE Hne. destruct ev as [p idx k0|p idx k0| |p ns|l].
+  intros HE Hne. destruct ev as [p idx k0|p idx k0| |p|p ns|l].
   - exfalso. apply (proj1 (Hne p idx k0)). reflexivity.
   - exfalso. apply (proj2 (Hne p idx k0)). reflexivity.
   - apply restart_all_empty.
+  - unfold AllEmpty. cbn [step fst s_peers].
+    destruct (nth_error (s_peers st) (N.to_nat p)) as [x|] eqn:Hn; [|exact HE].
+    intros q Hin. apply in_set_nth in Hin. destruct Hin as [Hq|Hq]; [exact Hq|exact (HE q Hq)].
   - unfold AllEmpty. cbn [step fst s_peers].
     destruct (nth_error (s_peers st) (N.to_nat p)) as [x|] eqn:Hn; [|exact HE].
     pose proof (HE x (nth_error_In _ _ Hn)) as Ex.
@@ -681,4 +691,160 @@ Proof.
   cbn [put k_prev k_cur k_next]. split; [reflexivity|]. split; [reflexivity|].
   exists (marked k ctr). split; [reflexivity|].
   unfold marked, set_filter. cbn [k_idx k_key]. split; [exact Hi|symmetry; exact Hk].
+Qed.
+
+(* ------------------------------------------------------------------ removed peers *)
+
+Definition no_keys (q : peer) : Prop := k_prev q = None /\ k_cur q = None /\ k_next q = None.
+Definition EmptyAt (ps : list peer) (n : nat) : Prop := forall q, nth_error ps n = Some q -> no_keys q.
+Definition Gone (p : N) (st : state) : Prop :=
+  is_gone st p = true /\ EmptyAt (s_peers st) (N.to_nat p).
+
+Lemma no_keys_empty : no_keys empty_peer.
+Proof. unfold no_keys, empty_peer. cbn. repeat split. Qed.
+
+Lemma nth_error_set_nth_eq {A} (l : list A) : forall n v q,
+  nth_error (set_nth l n v) n = Some q -> q = v.
+Proof.
+  induction l as [|h t IH]; intros [|n] v q H; cbn [nth_error set_nth] in H; try discriminate.
+  - inversion H; reflexivity.
+  - apply (IH n v q H).
+Qed.
+
+Lemma nth_error_set_nth_other {A} (l : list A) : forall n m v,
+  n <> m -> nth_error (set_nth l n v) m = nth_error l m.
+Proof.
+  induction l as [|h t IH]; intros [|n] [|m] v Hne; cbn [nth_error set_nth]; try reflexivity.
+  - exfalso. apply Hne. reflexivity.
+  - apply IH. intros E. apply Hne. rewrite E. reflexivity.
+Qed.
+
+Lemma emptyat_set_nth ps n m v :
+  EmptyAt ps n -> (m = n -> no_keys v) -> EmptyAt (set_nth ps m v) n.
+Proof.
+  intros HE Hv q Hq. destruct (Nat.eq_dec m n) as [E|E].
+  - subst m. apply nth_error_set_nth_eq in Hq. subst q. apply Hv. reflexivity.
+  - rewrite (nth_error_set_nth_other ps m n v E) in Hq. exact (HE q Hq).
+Qed.
+
+Lemma is_gone_same st st' p : s_gone st' = s_gone st -> is_gone st' p = is_gone st p.
+Proof. unfold is_gone. intros E. rewrite E. reflexivity. Qed.
+
+Lemma to_nat_neq a b : a <> b -> N.to_nat a <> N.to_nat b.
+Proof. lia. Qed.
+
+Theorem removed_peer_has_no_keys : forall st p,
+  let st' := fst (step st (Remove p)) in
+  (forall q, nth_error (s_peers st') (N.to_nat p) = Some q ->
+             k_prev q = None /\ k_cur q = None /\ k_next q = None) /\
+  is_gone st' p = true /\
+  (forall e, In e (s_tbl st') -> e_owner e <> p).
+Proof.
+  intros st p st'. unfold st'. cbn [step fst]. split; [|split].
+  - cbn [s_peers]. intros q Hq.
+    destruct (nth_error (s_peers st) (N.to_nat p)) as [x|] eqn:Hn.
+    + apply nth_error_set_nth_eq in Hq. subst q. cbn. repeat split.
+    + rewrite Hn in Hq. discriminate.
+  - unfold is_gone. cbn [s_gone existsb]. rewrite N.eqb_refl. reflexivity.
+  - cbn [s_tbl]. intros e Hin. apply filter_In in Hin. destruct Hin as [_ Hb].
+    apply Bool.negb_true_iff in Hb. apply N.eqb_neq in Hb. exact Hb.
+Qed.
+
+(* one datagram: only the position find_idx returned is touched, and that position holds a keypair *)
+Lemma gone_recv1 p st d :
+  Gone p st ->
+  Gone p (fst (recv1 st d)) /\
+  forall i w, r_write (snd (recv1 st d)) = Some (i, w) -> i <> p.
+Proof.
+  intros [Hg HE].
+  destruct (recv1_cases st d) as [Hn|(idx & key & c & plain & i & sl & k & _ & Hf & _ & _ & _ & Hc)].
+  - rewrite Hn. cbn [fst snd nothing r_write]. split; [split; assumption|]. intros i w H; discriminate.
+  - rewrite Hc. cbn [fst snd r_write].
+    destruct (accepted_marks_slot (s_peers st) idx i sl k c Hf) as (p0 & Hn & Hu & Hs & _ & _).
+    assert (Hip : i <> p).
+    { intros E. subst i. destruct (HE p0 Hn) as (A & B & C).
+      destruct sl; cbn [get_slot] in Hs; congruence. }
+    split.
+    + split.
+      * unfold upd, is_gone in *. cbn [s_gone]. exact Hg.
+      * unfold upd. cbn [s_peers]. rewrite Hu.
+        intros q Hq. rewrite (nth_error_set_nth_other _ _ _ _ (to_nat_neq i p Hip)) in Hq.
+        exact (HE q Hq).
+    + intros i' w Hw. apply wr_some in Hw. destruct Hw as (E & _). subst i'. exact Hip.
+Qed.
+
+Lemma gone_run p : forall l st,
+  Gone p st ->
+  Gone p (fst (run recv1 st l)) /\
+  forall r i w, In r (snd (run recv1 st l)) -> r_write r = Some (i, w) -> i <> p.
+Proof.
+  induction l as [|d l IH]; intros st HG; cbn [run].
+  - cbn [fst snd]. split; [exact HG|]. intros r i w [].
+  - destruct (gone_recv1 p st d HG) as [HG1 Hw1].
+    destruct (recv1 st d) as [s1 r1]. cbn [fst snd] in HG1, Hw1.
+    destruct (IH s1 HG1) as [HG2 Hw2].
+    destruct (run recv1 s1 l) as [s2 rs]. cbn [fst snd] in *.
+    split; [exact HG2|]. intros r i w [E|Hin] Hw.
+    + subst r. exact (Hw1 i w Hw).
+    + exact (Hw2 r i w Hin Hw).
+Qed.
+
+Theorem gone_inv_step : forall p st ev,
+  Gone p st ->
+  Gone p (fst (step st ev)) /\
+  forall r i w, In r (snd (step st ev)) -> r_write r = Some (i, w) -> i <> p.
+Proof.
+  intros p st ev HG.
+  destruct ev as [p0 idx k0|p0 idx k0| |p0|p0 ns|l]; cbn [step];
+    try (apply gone_run; exact HG); destruct HG as [Hg HE].
+  - destruct (is_gone st p0) eqn:Hg0; cbn [fst snd]; (split; [|intros r i w []]); [split; assumption|].
+    assert (Hne : N.to_nat p0 <> N.to_nat p).
+    { apply to_nat_neq. intros E. subst p0. rewrite Hg in Hg0. discriminate. }
+    split; [unfold is_gone in *; cbn [s_gone]; exact Hg|]. cbn [s_peers].
+    destruct (nth_error (s_peers st) (N.to_nat p0)); [|exact HE].
+    apply emptyat_set_nth; [exact HE|]. intros E. contradiction.
+  - destruct (is_gone st p0) eqn:Hg0; cbn [fst snd]; (split; [|intros r i w []]); [split; assumption|].
+    assert (Hne : N.to_nat p0 <> N.to_nat p).
+    { apply to_nat_neq. intros E. subst p0. rewrite Hg in Hg0. discriminate. }
+    split; [unfold is_gone in *; cbn [s_gone]; exact Hg|]. cbn [s_peers].
+    destruct (nth_error (s_peers st) (N.to_nat p0)); [|exact HE].
+    apply emptyat_set_nth; [exact HE|]. intros E. contradiction.
+  - cbn [fst snd]. split; [|intros r i w []].
+    split; [unfold is_gone in *; cbn [s_gone]; exact Hg|]. cbn [s_peers].
+    intros q Hq. apply nth_error_In in Hq. apply in_map_iff in Hq. destruct Hq as (x & E & _).
+    subst q. cbn. repeat split.
+  - cbn [fst snd]. split; [|intros r i w []]. split.
+    + unfold is_gone in *. cbn [s_gone existsb]. rewrite Hg. apply Bool.orb_true_r.
+    + cbn [s_peers]. destruct (nth_error (s_peers st) (N.to_nat p0)); [|exact HE].
+      apply emptyat_set_nth; [exact HE|]. intros _. cbn. repeat split.
+  - cbn [fst snd]. split; [|intros r i w []].
+    split; [unfold is_gone in *; cbn [s_gone]; exact Hg|]. cbn [s_peers].
+    destruct (nth_error (s_peers st) (N.to_nat p0)) as [x|] eqn:Hn; [|exact HE].
+    apply emptyat_set_nth; [exact HE|]. intros E. rewrite E in Hn.
+    destruct (HE x Hn) as (A & B & C). unfold no_keys. cbn [k_prev k_cur k_next].
+    rewrite A, B, C. cbn [age_kp]. repeat split.
+Qed.
+
+Lemma gone_trace p : forall evs st,
+  Gone p st ->
+  forall rs r i w, In rs (outs step st evs) -> In r rs -> r_write r = Some (i, w) -> i <> p.
+Proof.
+  induction evs as [|ev evs IH]; intros st HG rs r i w Hrs Hr Hw; unfold outs in Hrs; cbn [run] in Hrs.
+  - destruct Hrs.
+  - destruct (gone_inv_step p st ev HG) as [HG1 Hw1].
+    destruct (step st ev) as [s1 o1]. cbn [fst snd] in HG1, Hw1.
+    specialize (IH s1 HG1 rs r i w). unfold outs in IH.
+    destruct (run step s1 evs) as [s2 os]. cbn [snd] in *.
+    destruct Hrs as [E|Hin].
+    + subst rs. exact (Hw1 r i w Hr Hw).
+    + exact (IH Hin Hr Hw).
+Qed.
+
+Theorem removed_peer_never_written : forall evs st p,
+  is_gone st p = true ->
+  (forall q, nth_error (s_peers st) (N.to_nat p) = Some q ->
+             k_prev q = None /\ k_cur q = None /\ k_next q = None) ->
+  forall rs r i w, In rs (outs step st evs) -> In r rs -> r_write r = Some (i, w) -> i <> p.
+Proof.
+  intros evs st p Hg HE. apply (gone_trace p evs st). split; [exact Hg|exact HE].
 Qed.
